@@ -82,8 +82,8 @@ class Real:
         Real._n += 1
         self.path = os.path.join(_tmpdir(), f"acc-{os.getpid()}-{Real._n}.state")
         self.driver = AccessoryDriver(
-            loop=_loop(), persist_file=self.path, address="127.0.0.1", port=51827, mac="AA:BB:CC:DD:EE:FF"
-        )
+            loop=_loop(), persist_file=self.path, address="127.0.0.1", port=51827
+        )  # mac, setup id and the Ed25519 key pair are random per instance
         self.persist_calls = 0
         real = self
 
